@@ -39,7 +39,12 @@ func verifServers() veriflib.OrdMap {
 		},
 		Set:      func(k string, v int) { m.Set(k, mk(v)) },
 		SetToTop: func(k string, v int) { m.SetToTop(k, mk(v)) },
-		Update:   func(k string, v int) { m.Update(k, func(*Server) *Server { verifrt.Assert("C16.ordmap.update-callback-under-write-lock", verifrt.WriteLocked()); return mk(v) }) },
+		Update: func(k string, v int) {
+			m.Update(k, func(*Server) *Server {
+				verifrt.Assert("C16.ordmap.update-callback-under-write-lock", verifrt.WriteLocked())
+				return mk(v)
+			})
+		},
 		Get: func(k string) (int, bool) {
 			o, ok := m.Get(k)
 			return tag[o], ok
@@ -47,8 +52,12 @@ func verifServers() veriflib.OrdMap {
 		GetValue: func(k string) int { return tag[m.GetValue(k)] },
 		Has:      m.Has,
 		Len:      m.Len,
-		Each:     func(visit func(string, int)) { _ = m.Each(func(k string, v *Server) error { visit(k, tag[v]); return nil }) },
-		EachRev:  func(visit func(string, int)) { _ = m.EachReverse(func(k string, v *Server) error { visit(k, tag[v]); return nil }) },
+		Each: func(visit func(string, int)) {
+			_ = m.Each(func(k string, v *Server) error { visit(k, tag[v]); return nil })
+		},
+		EachRev: func(visit func(string, int)) {
+			_ = m.EachReverse(func(k string, v *Server) error { visit(k, tag[v]); return nil })
+		},
 		Map: func(f func(string, int) int) {
 			_ = m.Map(func(k string, v *Server) (*Server, error) { return mk(f(k, tag[v])), nil })
 		},
@@ -94,7 +103,12 @@ func verifTags() veriflib.OrdMap {
 		},
 		Set:      func(k string, v int) { m.Set(TagName(k), mk(v)) },
 		SetToTop: func(k string, v int) { m.SetToTop(TagName(k), mk(v)) },
-		Update:   func(k string, v int) { m.Update(TagName(k), func(*Tag) *Tag { verifrt.Assert("C16.ordmap.update-callback-under-write-lock", verifrt.WriteLocked()); return mk(v) }) },
+		Update: func(k string, v int) {
+			m.Update(TagName(k), func(*Tag) *Tag {
+				verifrt.Assert("C16.ordmap.update-callback-under-write-lock", verifrt.WriteLocked())
+				return mk(v)
+			})
+		},
 		Get: func(k string) (int, bool) {
 			o, ok := m.Get(TagName(k))
 			return tag[o], ok
@@ -102,8 +116,12 @@ func verifTags() veriflib.OrdMap {
 		GetValue: func(k string) int { return tag[m.GetValue(TagName(k))] },
 		Has:      func(k string) bool { return m.Has(TagName(k)) },
 		Len:      m.Len,
-		Each:     func(visit func(string, int)) { _ = m.Each(func(k TagName, v *Tag) error { visit(string(k), tag[v]); return nil }) },
-		EachRev:  func(visit func(string, int)) { _ = m.EachReverse(func(k TagName, v *Tag) error { visit(string(k), tag[v]); return nil }) },
+		Each: func(visit func(string, int)) {
+			_ = m.Each(func(k TagName, v *Tag) error { visit(string(k), tag[v]); return nil })
+		},
+		EachRev: func(visit func(string, int)) {
+			_ = m.EachReverse(func(k TagName, v *Tag) error { visit(string(k), tag[v]); return nil })
+		},
 		Map: func(f func(string, int) int) {
 			_ = m.Map(func(k TagName, v *Tag) (*Tag, error) { return mk(f(string(k), tag[v])), nil })
 		},
@@ -143,7 +161,12 @@ func verifUserTypes() veriflib.OrdMap {
 		},
 		Set:      func(k string, v int) { m.Set(k, mk(v)) },
 		SetToTop: func(k string, v int) { m.SetToTop(k, mk(v)) },
-		Update:   func(k string, v int) { m.Update(k, func(*UserType) *UserType { verifrt.Assert("C16.ordmap.update-callback-under-write-lock", verifrt.WriteLocked()); return mk(v) }) },
+		Update: func(k string, v int) {
+			m.Update(k, func(*UserType) *UserType {
+				verifrt.Assert("C16.ordmap.update-callback-under-write-lock", verifrt.WriteLocked())
+				return mk(v)
+			})
+		},
 		Get: func(k string) (int, bool) {
 			o, ok := m.Get(k)
 			return tag[o], ok
@@ -151,8 +174,12 @@ func verifUserTypes() veriflib.OrdMap {
 		GetValue: func(k string) int { return tag[m.GetValue(k)] },
 		Has:      m.Has,
 		Len:      m.Len,
-		Each:     func(visit func(string, int)) { _ = m.Each(func(k string, v *UserType) error { visit(k, tag[v]); return nil }) },
-		EachRev:  func(visit func(string, int)) { _ = m.EachReverse(func(k string, v *UserType) error { visit(k, tag[v]); return nil }) },
+		Each: func(visit func(string, int)) {
+			_ = m.Each(func(k string, v *UserType) error { visit(k, tag[v]); return nil })
+		},
+		EachRev: func(visit func(string, int)) {
+			_ = m.EachReverse(func(k string, v *UserType) error { visit(k, tag[v]); return nil })
+		},
 		Map: func(f func(string, int) int) {
 			_ = m.Map(func(k string, v *UserType) (*UserType, error) { return mk(f(k, tag[v])), nil })
 		},
@@ -192,7 +219,12 @@ func verifUserRules() veriflib.OrdMap {
 		},
 		Set:      func(k string, v int) { m.Set(k, mk(v)) },
 		SetToTop: func(k string, v int) { m.SetToTop(k, mk(v)) },
-		Update:   func(k string, v int) { m.Update(k, func(*UserRule) *UserRule { verifrt.Assert("C16.ordmap.update-callback-under-write-lock", verifrt.WriteLocked()); return mk(v) }) },
+		Update: func(k string, v int) {
+			m.Update(k, func(*UserRule) *UserRule {
+				verifrt.Assert("C16.ordmap.update-callback-under-write-lock", verifrt.WriteLocked())
+				return mk(v)
+			})
+		},
 		Get: func(k string) (int, bool) {
 			o, ok := m.Get(k)
 			return tag[o], ok
@@ -200,8 +232,12 @@ func verifUserRules() veriflib.OrdMap {
 		GetValue: func(k string) int { return tag[m.GetValue(k)] },
 		Has:      m.Has,
 		Len:      m.Len,
-		Each:     func(visit func(string, int)) { _ = m.Each(func(k string, v *UserRule) error { visit(k, tag[v]); return nil }) },
-		EachRev:  func(visit func(string, int)) { _ = m.EachReverse(func(k string, v *UserRule) error { visit(k, tag[v]); return nil }) },
+		Each: func(visit func(string, int)) {
+			_ = m.Each(func(k string, v *UserRule) error { visit(k, tag[v]); return nil })
+		},
+		EachRev: func(visit func(string, int)) {
+			_ = m.EachReverse(func(k string, v *UserRule) error { visit(k, tag[v]); return nil })
+		},
 		Map: func(f func(string, int) int) {
 			_ = m.Map(func(k string, v *UserRule) (*UserRule, error) { return mk(f(k, tag[v])), nil })
 		},
@@ -249,7 +285,12 @@ func verifInteractions() veriflib.OrdMap {
 		},
 		Set:      func(k string, v int) { m.Set(key(k), mk(v)) },
 		SetToTop: func(k string, v int) { m.SetToTop(key(k), mk(v)) },
-		Update:   func(k string, v int) { m.Update(key(k), func(Interaction) Interaction { verifrt.Assert("C16.ordmap.update-callback-under-write-lock", verifrt.WriteLocked()); return mk(v) }) },
+		Update: func(k string, v int) {
+			m.Update(key(k), func(Interaction) Interaction {
+				verifrt.Assert("C16.ordmap.update-callback-under-write-lock", verifrt.WriteLocked())
+				return mk(v)
+			})
+		},
 		Get: func(k string) (int, bool) {
 			o, ok := m.Get(key(k))
 			if !ok {
@@ -264,10 +305,14 @@ func verifInteractions() veriflib.OrdMap {
 			}
 			return tag[o]
 		},
-		Has:     func(k string) bool { return m.Has(key(k)) },
-		Len:     m.Len,
-		Each:    func(visit func(string, int)) { _ = m.Each(func(k InteractionID, v Interaction) error { visit(unkey(k), tag[v]); return nil }) },
-		EachRev: func(visit func(string, int)) { _ = m.EachReverse(func(k InteractionID, v Interaction) error { visit(unkey(k), tag[v]); return nil }) },
+		Has: func(k string) bool { return m.Has(key(k)) },
+		Len: m.Len,
+		Each: func(visit func(string, int)) {
+			_ = m.Each(func(k InteractionID, v Interaction) error { visit(unkey(k), tag[v]); return nil })
+		},
+		EachRev: func(visit func(string, int)) {
+			_ = m.EachReverse(func(k InteractionID, v Interaction) error { visit(unkey(k), tag[v]); return nil })
+		},
 		Map: func(f func(string, int) int) {
 			_ = m.Map(func(k InteractionID, v Interaction) (Interaction, error) { return mk(f(unkey(k), tag[v])), nil })
 		},
